@@ -389,7 +389,7 @@ pub fn run(tier: Tier) -> i32 {
     });
     run.absorb(l);
     run.exhaustive = run.counter("capped-values") == 0;
-    for t in ["member-order", "dict-kind-member", "grid-meta-spelling", "column-meta-spelling", "utc-tz-member", "number-spelling", "escape-spelling", "whitespace", "fraction-digits", "zero-offset-spelling"] {
+    for t in ["member-order", "dict-kind-member", "grid-meta-spelling", "column-meta-spelling", "utc-tz-member", "number-spelling", "escape-spelling", "whitespace", "fraction-digits", "zero-offset-spelling", "val-in-utc"] {
         run.require(run.counter(&format!("deviated:{t}")) > 0, &format!("choice-point type {t} never deviated"));
     }
     run.require(run.counter("d1-values") > 50_000, "direction 1 too small");
